@@ -85,20 +85,14 @@ func vfIsTokenish(f fragment) bool {
 }
 
 // vfMeasurable: the fragment's position comes from a position field of go/ast (not from the
-// fragmenter's cursor guess).
+// fragmenter's cursor guess): identifiers, literals and Bad nodes always; a token iff its node has a
+// position field holding exactly that position.
 func vfMeasurable(f fragment) bool {
 	switch f := f.(type) {
 	case *stringFragment, *badFragment:
 		return true
 	case *tokenFragment:
-		switch f.Token {
-		case token.ELSE, token.SEMICOLON, token.PERIOD, token.COMMA, token.ARROW, token.CHAN, token.ELLIPSIS:
-			return false
-		case token.RBRACK:
-			_, isArray := f.Node.(*ast.ArrayType)
-			return !isArray
-		}
-		return true
+		return vfHasPosField(f.Node, f.Pos)
 	}
 	return false
 }
@@ -219,13 +213,45 @@ func vfGapConfig(k int) dst.Node {
 		return &dst.GenDecl{Tok: token.TYPE, Specs: []dst.Spec{&dst.TypeSpec{Name: vfIdent("T"),
 			TypeParams: &dst.FieldList{Opening: true, Closing: true, List: []*dst.Field{{Names: []*dst.Ident{vfIdent("P")}, Type: vfIdent("any")}}},
 			Type: &dst.ArrayType{Elt: vfIdent("P")}}}}
+	case 10: // function declaration with receiver, parameters (ellipsis), results; for and range statements
+		return &dst.FuncDecl{Recv: &dst.FieldList{Opening: true, Closing: true, List: []*dst.Field{{Names: []*dst.Ident{vfIdent("r")}, Type: &dst.StarExpr{X: vfIdent("T")}}}},
+			Name: vfIdent("m"), Type: &dst.FuncType{Func: true,
+				Params:  &dst.FieldList{Opening: true, Closing: true, List: []*dst.Field{{Names: []*dst.Ident{vfIdent("a")}, Type: &dst.Ellipsis{Elt: vfIdent("int")}}}},
+				Results: &dst.FieldList{Opening: true, Closing: true, List: []*dst.Field{{Type: vfIdent("error")}}}},
+			Body: &dst.BlockStmt{List: []dst.Stmt{
+				&dst.RangeStmt{Key: vfIdent("i"), Value: vfIdent("v"), Tok: token.DEFINE, X: vfIdent("a"), Body: &dst.BlockStmt{}},
+				&dst.ForStmt{Cond: vfIdent("c"), Body: &dst.BlockStmt{List: []dst.Stmt{&dst.BranchStmt{Tok: token.BREAK}}}},
+			}}}
+	case 11: // select with comm clauses, channel types, send, labeled statement, go/defer
+		return &dst.BlockStmt{List: []dst.Stmt{
+			&dst.LabeledStmt{Label: vfIdent("L"), Stmt: &dst.SelectStmt{Body: &dst.BlockStmt{List: []dst.Stmt{
+				&dst.CommClause{Comm: &dst.SendStmt{Chan: vfIdent("c"), Value: vfIdent("v")}, Body: []dst.Stmt{&dst.GoStmt{Call: &dst.CallExpr{Fun: vfIdent("g")}}}},
+				&dst.CommClause{Body: []dst.Stmt{&dst.DeferStmt{Call: &dst.CallExpr{Fun: vfIdent("d")}}}},
+			}}}},
+			&dst.DeclStmt{Decl: &dst.GenDecl{Tok: token.VAR, Specs: []dst.Spec{&dst.ValueSpec{Names: []*dst.Ident{vfIdent("ch")}, Type: &dst.ChanType{Dir: dst.SEND, Value: vfIdent("int")}}}}},
+		}}
+	case 12: // type switch, type assertion, slice expressions, unary/binary/paren/star, func literal
+		return &dst.TypeSwitchStmt{Assign: &dst.AssignStmt{Lhs: []dst.Expr{vfIdent("t")}, Tok: token.DEFINE, Rhs: []dst.Expr{&dst.TypeAssertExpr{X: vfIdent("x")}}},
+			Body: &dst.BlockStmt{List: []dst.Stmt{
+				&dst.CaseClause{List: []dst.Expr{&dst.ArrayType{Elt: vfIdent("byte")}}, Body: []dst.Stmt{
+					&dst.ReturnStmt{Results: []dst.Expr{&dst.SliceExpr{X: vfIdent("t"), Low: vfIdent("a"), High: vfIdent("b"), Max: vfIdent("c"), Slice3: true}}}}},
+				&dst.CaseClause{Body: []dst.Stmt{&dst.ExprStmt{X: &dst.CallExpr{Fun: &dst.FuncLit{Type: &dst.FuncType{Func: true, Params: &dst.FieldList{Opening: true, Closing: true}}, Body: &dst.BlockStmt{}}}},
+					&dst.IncDecStmt{X: &dst.ParenExpr{X: &dst.BinaryExpr{X: &dst.UnaryExpr{Op: token.SUB, X: vfIdent("p")}, Op: token.ADD, Y: &dst.StarExpr{X: vfIdent("q")}}}, Tok: token.INC}}},
+			}}}
+	case 13: // interface with embedded type and method, map and func types in a struct
+		return &dst.GenDecl{Tok: token.TYPE, Lparen: true, Rparen: true, Specs: []dst.Spec{
+			&dst.TypeSpec{Name: vfIdent("I"), Type: &dst.InterfaceType{Methods: &dst.FieldList{Opening: true, Closing: true, List: []*dst.Field{
+				{Type: vfIdent("E")}, {Names: []*dst.Ident{vfIdent("M")}, Type: &dst.FuncType{Params: &dst.FieldList{Opening: true, Closing: true}}}}}}},
+			&dst.TypeSpec{Name: vfIdent("S"), Assign: true, Type: &dst.StructType{Fields: &dst.FieldList{Opening: true, Closing: true, List: []*dst.Field{
+				{Names: []*dst.Ident{vfIdent("m")}, Type: &dst.MapType{Key: vfIdent("string"), Value: vfIdent("int")}, Tag: &dst.BasicLit{Kind: token.STRING, Value: "`t`"}}}}}},
+		}}
 	default: // selector, index, composite literal with key-value elements
 		return &dst.ExprStmt{X: &dst.CompositeLit{Type: &dst.SelectorExpr{X: vfIdent("pkg"), Sel: vfIdent("T")}, Elts: []dst.Expr{
 			&dst.KeyValueExpr{Key: vfIdent("k"), Value: vfIdent("v")}, vfIdent("w")}}}
 	}
 }
 
-const vfGapConfigs = 10
+const vfGapConfigs = 14
 
 func vfGap(config int, maxItems int, twoGaps bool) {
 	vfGapTree(vfGapConfig(config), maxItems, twoGaps, nil)
@@ -253,11 +279,32 @@ func vfGapTree(n dst.Node, maxItems int, twoGaps bool, setup func(fd *fileDecora
 		return
 	}
 	g1 := vfChoice("gap", ngaps)
+	// A comment or line break that stands in front of a token without a position in go/ast (range,
+	// else, the '.' of a selector, ...) is sorted behind that token by fragment() (the token's guessed
+	// position is the end of the previous token): such gaps never receive items in a real fragment list.
+	{
+		var tk []fragment
+		for _, f := range fd.fragments {
+			if vfIsTokenish(f) {
+				tk = append(tk, f)
+			}
+		}
+		vfAssume(vfMeasurable(tk[g1+1]))
+	}
 	items1 := vfGapItems("g1", maxItems)
 	var items2 []vfGapItem
 	g2 := -1
 	if twoGaps && g1+1 < ngaps {
 		g2 = g1 + 1 + vfChoice("gap2", ngaps-g1-1)
+		{
+			var tk []fragment
+			for _, f := range fd.fragments {
+				if vfIsTokenish(f) {
+					tk = append(tk, f)
+				}
+			}
+			vfAssume(vfMeasurable(tk[g2+1]))
+		}
 		items2 = vfGapItems("g2", 1)
 	}
 	// insert the later gap first so that indices stay valid
@@ -391,10 +438,17 @@ func VerifC01Gap6() { vfC01Gap(6) }
 func VerifC01Gap7() { vfC01Gap(7) }
 func VerifC01Gap8() { vfC01Gap(8) }
 func VerifC01Gap9() { vfC01Gap(9) }
+func VerifC01Gap10() { vfC01Gap(10) }
+func VerifC01Gap11() { vfC01Gap(11) }
+func VerifC01Gap12() { vfC01Gap(12) }
+func VerifC01Gap13() { vfC01Gap(13) }
 
 // C03 (2): arbitrary layouts (any sequence of comments, line breaks and blank lines fragment() can
 // emit, arbitrary indents): no comment is lost, duplicated or reordered, none crosses a token.
 func vfC03Gap(config int) {
+	if config >= 10 && vfTier() == 0 {
+		return // configurations 10-13 are covered in the quick tier by C01 (canonical layouts); C03 adds them in thorough
+	}
 	vfCanonical, vfCheckLines = false, false
 	max := 1 + vfTier()
 	if config == 0 {
@@ -412,6 +466,10 @@ func VerifC03Gap6() { vfC03Gap(6) }
 func VerifC03Gap7() { vfC03Gap(7) }
 func VerifC03Gap8() { vfC03Gap(8) }
 func VerifC03Gap9() { vfC03Gap(9) }
+func VerifC03Gap10() { vfC03Gap(10) }
+func VerifC03Gap11() { vfC03Gap(11) }
+func VerifC03Gap12() { vfC03Gap(12) }
+func VerifC03Gap13() { vfC03Gap(13) }
 
 // C15 (2): Bad nodes (symbolic extent) as neighbours of arbitrary comment / line-break sequences.
 func VerifC15GapBad() {
@@ -474,6 +532,7 @@ func vfC15Gap(config int) {
 func VerifC15Gap0() { vfC15Gap(0) }
 func VerifC15Gap3() { vfC15Gap(3) }
 func VerifC15Gap6() { vfC15Gap(6) }
+func VerifC15Gap11() { vfC15Gap(11) }
 
 // VerifC08QualifiedPoints: the decoration points of an expanded qualified identifier (same harness as
 // VerifC04Qualified, run under C08 as well: "expand back with every interior comment intact").
